@@ -67,13 +67,18 @@ reader:
 			if exceeded, has := buffer.UnwrapMessageSizeExceeded(err); has {
 				serr := r.Slurp(exceeded.Size)
 				if serr != nil {
-					return serr
+					return unexpectedEOF(serr)
 				}
 
 				r.err = err
 			}
 
-			return err
+			// NOTE: the connection ending inside the copy-in stream is not the
+			// end of the stream, only a CopyDone message is. A bare io.EOF of
+			// the transport (the peer went away between two messages, right
+			// behind a message header or inside a skipped body) must not be
+			// mistaken for it by the handler.
+			return unexpectedEOF(err)
 		}
 
 		switch typed {
@@ -104,6 +109,16 @@ reader:
 			return r.err
 		}
 	}
+}
+
+// unexpectedEOF reports an io.EOF of the underlying connection as
+// io.ErrUnexpectedEOF: within a copy-in stream io.EOF is reserved for CopyDone.
+func unexpectedEOF(err error) error {
+	if err == io.EOF {
+		return io.ErrUnexpectedEOF
+	}
+
+	return err
 }
 
 // Scanner is a function that scans a byte slice and returns the value as an any
